@@ -275,10 +275,11 @@ def run_cases(ctx, specs):
 
 
 def run(ctx):
-    ok = kernel_setup(ctx, needed=("py2v_batch.py", "pyx2v.py"))
+    ok = kernel_setup(ctx, needed=("py2v_batch.py", "pyx2v.py"), soft=("py2v_readbatch.py",))
     ok = ok and ctx.build_models(["Model/Paths.vo"])
     if ok:
         ctx.build_props()
+        ctx.build_props("Props/C12g.vo")  # index-array reads return row idx[j] at position j (generated read_batch_idx)
         ctx.build_props("Props/C05s.vo")  # every schedule of a worker pool (Model/Sched.v) over the generated kernel and batch_tasks
     else:
         ctx.obligations += 1
